@@ -7,8 +7,10 @@ import (
 	"sort"
 	"strconv"
 	"strings"
+	"sync"
 
 	"golang.org/x/tools/go/ssa"
+	"golang.org/x/tools/go/ssa/ssautil"
 )
 
 // ByteReach computes, for every byte value b, whether control in fn can reach an
@@ -312,6 +314,23 @@ func (ev *byteEval) value(v ssa.Value, ctx phiCtx, depth int) (int64, bool) {
 			return a ^ b, true
 		}
 		return 0, false
+	case *ssa.Lookup:
+		if !x.CommaOk {
+			if val, _, ok := ev.tableLookup(x, ctx, depth); ok {
+				return val, true
+			}
+		}
+		return 0, false
+	case *ssa.Extract:
+		if lk, ok := x.Tuple.(*ssa.Lookup); ok && lk.CommaOk {
+			if val, present, ok := ev.tableLookup(lk, ctx, depth); ok {
+				if x.Index == 0 {
+					return val, true
+				}
+				return present, true
+			}
+		}
+		return 0, false
 	case *ssa.Call:
 		if ev.assume != nil {
 			if r, ok := ev.assume(x); ok {
@@ -447,4 +466,157 @@ func EvalAt(fn *ssa.Function, leaf func(ssa.Value) (int64, bool), at ssa.Instruc
 	}
 	walk(fn.Blocks[0], nil, map[ssa.Value]int64{})
 	return vals, unknown
+}
+
+// mapLiteral is the content of a package-level map that only the package initialiser assigns (a map literal with
+// constant keys and constant values) and that no function of the package updates.
+type mapLiteral struct {
+	strKeys map[string]int64
+	intKeys map[int64]int64
+}
+
+var mapLitCache sync.Map
+
+func globalMapLiteral(g *ssa.Global) *mapLiteral {
+	if v, ok := mapLitCache.Load(g); ok {
+		return v.(*mapLiteral)
+	}
+	var res *mapLiteral
+	defer func() { mapLitCache.Store(g, res) }()
+	if g.Pkg == nil {
+		return nil
+	}
+	init := g.Pkg.Func("init")
+	if init == nil {
+		return nil
+	}
+	var lit ssa.Value
+	Instrs(init, false, func(in ssa.Instruction) {
+		if st, ok := in.(*ssa.Store); ok && st.Addr == ssa.Value(g) {
+			lit = st.Val
+		}
+	})
+	if lit == nil {
+		return nil
+	}
+	if _, isMk := lit.(*ssa.MakeMap); !isMk {
+		return nil
+	}
+	// nothing else writes the variable or the map it holds
+	written := false
+	for fn := range ssautil.AllFunctions(g.Pkg.Prog) {
+		if fn.Pkg != g.Pkg || written {
+			continue
+		}
+		Instrs(fn, false, func(in ssa.Instruction) {
+			switch x := in.(type) {
+			case *ssa.Store:
+				if x.Addr == ssa.Value(g) && fn != init {
+					written = true
+				}
+			case *ssa.MapUpdate:
+				if ld, ok := x.Map.(*ssa.UnOp); ok && ld.X == ssa.Value(g) {
+					written = true
+				}
+			case ssa.CallInstruction:
+				if b, ok := x.Common().Value.(*ssa.Builtin); ok && (b.Name() == "delete" || b.Name() == "clear") {
+					if ld, ok := x.Common().Args[0].(*ssa.UnOp); ok && ld.X == ssa.Value(g) {
+						written = true
+					}
+				}
+			}
+		})
+	}
+	if written {
+		return nil
+	}
+	ml := &mapLiteral{strKeys: map[string]int64{}, intKeys: map[int64]int64{}}
+	okAll := true
+	Instrs(init, false, func(in ssa.Instruction) {
+		mu, ok := in.(*ssa.MapUpdate)
+		if !ok || mu.Map != lit {
+			return
+		}
+		var val int64
+		switch v := mu.Value.(type) {
+		case *ssa.Const:
+			if v.Value == nil {
+				okAll = false
+				return
+			}
+			switch v.Value.Kind() {
+			case constant.Bool:
+				if constant.BoolVal(v.Value) {
+					val = 1
+				}
+			case constant.Int:
+				val, _ = constant.Int64Val(v.Value)
+			default:
+				okAll = false
+				return
+			}
+		default:
+			okAll = false
+			return
+		}
+		if ks, ok := ConstString(mu.Key); ok {
+			ml.strKeys[ks] = val
+		} else if ki, ok := ConstInt(mu.Key); ok {
+			ml.intKeys[ki] = val
+		} else {
+			okAll = false
+		}
+	})
+	if !okAll {
+		return nil
+	}
+	res = ml
+	return res
+}
+
+// tableLookup evaluates m[k] on a package-level literal map for a known key.
+func (ev *byteEval) tableLookup(x *ssa.Lookup, ctx phiCtx, depth int) (val, present int64, ok bool) {
+	ld, isLd := x.X.(*ssa.UnOp)
+	if !isLd || ld.Op != token.MUL {
+		return 0, 0, false
+	}
+	g, isG := ld.X.(*ssa.Global)
+	if !isG {
+		return 0, 0, false
+	}
+	ml := globalMapLiteral(g)
+	if ml == nil {
+		return 0, 0, false
+	}
+	k, known := ev.value(x.Index, ctx, depth+1)
+	if !known {
+		return 0, 0, false
+	}
+	if isStringValue(x.Index) {
+		if ev.strs == nil {
+			return 0, 0, false
+		}
+		s, found := ev.strs.Str(k)
+		if !found {
+			return 0, 0, false
+		}
+		if v, in := ml.strKeys[s]; in {
+			return v, 1, true
+		}
+		return 0, 0, true
+	}
+	if v, in := ml.intKeys[k]; in {
+		return v, 1, true
+	}
+	return 0, 0, true
+}
+
+// Str returns the string an id stands for.
+func (si *StrIntern) Str(id int64) (string, bool) {
+	for s, i := range si.ids {
+		if i == id {
+			return s, true
+		}
+	}
+	return "", false
 }
